@@ -495,3 +495,221 @@ def write_evidence(prop, tier, seed, coverage, wall, violations, assumptions):
               wall_s=round(wall, 2), violations=violations)
     with open(os.path.join(evdir, prop + '.json'), 'w') as f:
         json.dump(ev, f, indent=1)
+
+
+# ---------------------------------------------------------------------------------------------
+# GH: generated-vs-hand witness search (lean/GH.lean `ghdriver`, tools/gen_gh.py, tools/gh_targets.json)
+# ---------------------------------------------------------------------------------------------
+
+GHDRIVER = os.path.join(LEAN, '.lake', 'build', 'bin', 'ghdriver')
+
+
+def build_ghdriver():
+    """Build the witness-search executable against the regenerated Dsi/Gen files. It does not build
+    when a translator failed closed (stubbed / stale-incompatible definitions): no search then."""
+    try:
+        ok, out = lake_build(['ghdriver'], timeout=1800)
+    except Exception as ex:
+        log('ghdriver: %r' % ex)
+        return False
+    if not ok:
+        log('ghdriver does not build:\n' + out[-1500:])
+    return ok
+
+
+def gh_run(lines, t_end, chunk=4000):
+    """Answers of ghdriver, one per line. A request that kills the process (a shift by an
+    astronomically large amount in a changed body, …) or hangs is answered ABORT / HANG and the rest of
+    its chunk is run again without it; requests not reached within the budget are answered NOTRUN."""
+    from concurrent.futures import ThreadPoolExecutor
+
+    def one(part):
+        res = []
+        i = 0
+        while i < len(part):
+            left = t_end - time.time()
+            if left <= 1:
+                res += ['NOTRUN'] * (len(part) - i)
+                break
+            rc, out, err = _run_proc(GHDRIVER, '\n'.join(part[i:]) + '\n', min(left, 20 + 0.01 * (len(part) - i)))
+            got = out.split('\n')
+            if got and got[-1] == '':
+                got.pop()
+            got = got[:len(part) - i]
+            res += got
+            i += len(got)
+            if i < len(part) and (rc != 0):
+                res.append('HANG' if rc == 'timeout' else 'ABORT')
+                i += 1
+            elif i < len(part):
+                res += ['NOTRUN'] * (len(part) - i)
+                break
+        return res
+    parts = [lines[i:i + chunk] for i in range(0, len(lines), chunk)]
+    if not parts:
+        return []
+    with ThreadPoolExecutor(max_workers=min(NCPU, 8, len(parts))) as ex:
+        outs = list(ex.map(one, parts))
+    return [a for o in outs for a in o]
+
+
+def gh_is_witness(ans):
+    if ' || ' not in ans:
+        return None
+    g, h = ans.split(' || ', 1)
+    return (g, h) if g != h else None
+
+
+def gh_shrink(wit, t_end, rounds=60, confirm=None):
+    """Greedy shrinking: one number made smaller (towards 0/1, powers of two) or one list element
+    dropped per step, as long as the two sides still differ (and the witness stays replayable; and,
+    when `confirm` is given and holds of the witness, as long as it keeps holding: the caller passes
+    "replays as an implementation-level violation")."""
+    import gen_gh
+    target, line, g, h = wit
+    need_req = gen_gh.gh_to_request(wit) is not None
+    if confirm is not None and not (need_req and confirm(wit)):
+        confirm = None
+    nconf = 0
+    for _ in range(rounds):
+        if time.time() > t_end:
+            break
+        cands = []
+        for c in gen_gh.shrink_candidates(line):
+            if c not in cands and c != line:
+                cands.append(c)
+        cands = cands[:600]
+        if not cands:
+            break
+        ans = gh_run(cands, t_end)
+        nxt = None
+        for c, a in zip(cands, ans):
+            w = gh_is_witness(a)
+            if w and (not need_req or gen_gh.gh_to_request((target, c, w[0], w[1])) is not None):
+                if confirm is not None:
+                    nconf += 1
+                    if nconf > 80 or time.time() > t_end:
+                        break
+                    if not confirm((target, c, w[0], w[1])):
+                        continue
+                nxt = (target, c, w[0], w[1])
+                break
+        if nxt is None:
+            break
+        target, line, g, h = nxt
+    return (target, line, g, h)
+
+
+def gh_search(theorem_names, seed, budget_s=150, hints=(), per_target=3, confirm=None):
+    """Search for inputs on which a regenerated definition (what the Rust source now says) and the
+    hand model (what the property theorems are about) differ, for the GH targets of the given (failed)
+    theorems.  Returns None when `ghdriver` does not build, else a list of witnesses
+    `(target, request line, generated answer, hand answer)`, shrunk, at most `per_target` per target.
+    `hints`: names of the declarations that failed to check (their targets are searched first).
+    `confirm(witness) -> bool`: a stronger property to prefer and to preserve while shrinking (the
+    hook passes "the replay on the implementation is a violation")."""
+    import gen_gh
+    t0 = time.time()
+    if not build_ghdriver():
+        return None
+    t_end = time.time() + budget_s
+    tab = json.load(open(os.path.join(ROOT, 'tools', 'gh_targets.json')))
+    names = set(theorem_names)
+    hinted, rest = [], []
+    hint_words = set()
+    for h in hints:
+        hint_words.add(h.split(' ')[0].split('.')[-1])
+    for full, v in tab['theorems'].items():
+        if full not in names:
+            continue
+        dst = hinted if full.rsplit('.', 1)[-1] in hint_words else rest
+        for t in v['targets']:
+            if t not in dst:
+                dst.append(t)
+    targets = hinted + [t for t in rest if t not in hinted]
+    if not targets:
+        return []
+    found = {}
+    for rnd, n in enumerate((300, 1500, 6000)):
+        if time.time() > t_end - 5:
+            break
+        lines = gen_gh.gen_lines(targets, seed + 1000 * rnd, n)
+        ans = gh_run(lines, t_end - 5 if rnd else t_end - budget_s * 0.4)
+        for l, a in zip(lines, ans):
+            w = gh_is_witness(a)
+            if w:
+                found.setdefault(l.split(' ')[1], []).append((l.split(' ')[1], l, w[0], w[1]))
+        log('gh: round %d: %d requests over %d targets, witnesses on %d targets (%.1fs)' % (
+            rnd, len(lines), len(targets), len(found), time.time() - t0))
+        if found:
+            break
+    out = []
+    order = [t for t in targets if t in found]
+    share = max(3.0, (t_end - time.time()) / max(1, len(order) * per_target))
+    for t in order:
+        ws = found[t]
+        # replayable ones first, then short ones
+        ws.sort(key=lambda w: (gen_gh.gh_to_request(w) is None, len(w[1])))
+        if confirm is not None:
+            # confirmed ones first (a bounded number of probes)
+            cand = [w for w in ws if gen_gh.gh_to_request(w) is not None]
+            head = cand[:10] + random.Random(seed).sample(cand[10:], min(25, max(0, len(cand) - 10)))
+            ok = []
+            for w in head:
+                if time.time() > t_end - 10 or len(ok) >= per_target:
+                    break
+                if confirm(w):
+                    ok.append(w)
+            ws = ok + [w for w in ws if w not in ok]
+        kept = []
+        for w in ws:
+            if len(kept) >= per_target:
+                break
+            w2 = gh_shrink(w, min(t_end, time.time() + share), confirm=confirm)
+            if all(w2[1] != k[1] for k in kept):
+                kept.append(w2)
+        out += kept
+    return out
+
+
+def gh_replay(witnesses, main_bin, compare, ignore=None):
+    """Replay witnesses on the implementation through the ordinary correspondence comparison.
+    `compare(line, h, m)` returns the findings of one request.  Returns (violations, model_level):
+    `violations` are Findings of kind 'violation' (the implementation really departs from the
+    reference on that request); `model_level` lists `(witness, request or None, note)` for the rest."""
+    import gen_gh
+    viol, model = [], []
+    for w in witnesses:
+        req = None
+        try:
+            req = gen_gh.gh_to_request(w)
+        except Exception as ex:
+            log('gh_to_request: %r' % ex)
+        if not req or not main_bin:
+            model.append((w, None, 'not replayable: no request family expresses this input (scripted back end, unreachable state, '
+                             'a feature the default build lacks, or an input needing gigabytes on the implementation / the reference)'))
+            continue
+        h = run_lines(main_bin, [req], 30)
+        m = run_lines(DRIVER, [req], 60)
+        if not h or not m or m[0] in ('HANG', 'ABORT', 'bad-request'):
+            model.append((w, req, 'the reference could not evaluate the replay request'))
+            continue
+        fs = compare(req, h[0], m[0])
+        v = [f for f in fs if f.kind == 'violation']
+        if not v and req.startswith('LEN1 ') and ' || ' in m[0]:
+            # the published codeword is too long to materialise (reference `-`), so the request only
+            # compares the implementation with the hand-written length; that one equals the published
+            # length by the C06 theorems (`Dsi.rice_len`, …), and the implementation returns what the
+            # regenerated definition returns: a real difference from the published length
+            m3, m1 = m[0].split(' || ', 1)
+            if m1 == '-' and m3.isdigit() and int(m3) > (1 << 20) and h[0] != m3 and h[0] == w[2] and m3 == w[3]:
+                v = [Finding('violation', req, 0, h[0], m3, m3 + ' (hand-written length = published length by theorem; codeword too long to materialise)',
+                             '%s|impl!=ref' % ' '.join(req.split()[:3]))]
+        if v:
+            for f in v:
+                f.gh = w
+            viol += v
+        else:
+            model.append((w, req, 'replayed as `%s`: implementation %s, model/reference %s: no difference at the implementation level' % (
+                req[:200], h[0][:80], m[0][:120])))
+    return viol, model
